@@ -3,7 +3,7 @@
    Depends on the model file only, so that it still extracts when a proof breaks. *)
 From Coq Require Import List ZArith Extraction ExtrOcamlBasic.
 From LMBase Require Import Res ListX IEEE.
-From LMDisc Require Import DiscModel DiscImplCheck DiscU8Kernel GenDiscU8.
+From LMDisc Require Import DiscModel DiscImplCheck DiscU8Kernel GenDiscU8 DiscHistory.
 
 Definition f_of_bits : Z -> F32.t := F32.of_bits.
 Definition f_to_bits : F32.t -> Z := F32.to_bits.
@@ -34,4 +34,5 @@ Extraction "disc_model.ml"
   disc_score score_u8 score_rows_dispatch score_rows_avx2 striped configure_wrap_of
   well_conditioned cond_bound cond_A factor_sign_clear
   score_rows_generic sat_add vk_score_rows run_u8_kernel arm4_of
-  gen_avx2_u8 gen_neon_u8 gen_dispatch_u8_x86 gen_dispatch_u8_arm gen_pipeline_u8.
+  gen_avx2_u8 gen_neon_u8 gen_dispatch_u8_x86 gen_dispatch_u8_arm gen_pipeline_u8
+  u8_rows_into buf_empty buf_resize hstep hrun.
